@@ -171,7 +171,10 @@ CHECKS = {
              "the backend chain; C15_refuted_at_pinned for the pre-fix handler. Premise regenerated from source by a go/ast extractor: "
              "disconnect_records_parent_hash = true (eq_refl), MaxReorgDepth. Tie to the code: real wallet over simchain, random evolutions (reorg depth 1-8, "
              "wallet txs in replaced blocks, stale/repeated disconnects, offline periods through the real ClientConnected -> syncWithChain -> Rescan path, one "
-             "case beyond MaxReorgDepth), SyncedTo/BlockHash/RangeTransactions observed after every notification.",
+             "case beyond MaxReorgDepth), SyncedTo/BlockHash/RangeTransactions observed after every notification. The clause 'no transaction confirmed off the best "
+             "chain' is also proved on the model of the REAL store (Sync/SyncStore.v): the handlers' store history is a run of the abstract validating node of "
+             "Tx/Node.v, hence chain-consistent; the ledger's confirmed facts are exactly the members of the placed best chain, tx_details reports only such blocks "
+             "(via C13) and balance and spendable set are the ledger's (via C01) - C15_store_confirmed_only_on_best_chain, C15_wallet_balance_is_ledger_balance.",
         note="Defect S1 found and repaired (fix: 8ce830b); replay runs first from corpus/C15. The transaction store is only the projection (txid, confirming "
              "block)/unconfirmed here (conflicts are C01/C02's subject). Start-up hypotheses: backend tip >= wallet synced height, fork point inside the window. "
              "Observations not flagged: a backend chain shorter than the wallet's synced height makes syncWithChain retry forever; stale hash entries above the "
